@@ -189,6 +189,23 @@ func vrtBatchHarness(nocheck bool) {
 		// an error that fails the whole block: the caller rolls the block back.
 		// No C03 claim here; C08 owns "a block must not be unsyncable".
 		vrt.Cover("block-error")
+		vrt.ObserveStr("block-error", uerr.Error())
+		// Known finding D15 (closed era [PEG conversion limit, 2.0)): the funds pre-check credits a
+		// PEG request's output at once while recordBatch defers it to the request pass, so a batch
+		// that spends the not-yet-paid PEG passes the pre-check and fails in the middle of its writes.
+		d15 := false
+		if height >= specConvLimit && height < specV20 && len(batch.Transactions) > 1 {
+			for _, t := range batch.Transactions {
+				if t.IsConversion() && t.Conversion == fat2.PTickerPEG {
+					d15 = true
+				}
+			}
+		}
+		if d15 {
+			vrt.Assert("C08.valid-batch-never-fails-the-block@D15", false)
+		} else {
+			vrt.Assert("C08.valid-batch-never-fails-the-block", false)
+		}
 		return
 	}
 	if code < 0 {
